@@ -14,7 +14,7 @@ def _by_name(name: str) -> int:
     return int(name[1:]) if name and name[0] == "t" and name[1:].isdigit() else -1
 
 
-def run_scenario(scn: dict, *, fast: bool = False, eager: bool = False, uv: bool = False) -> dict:
+def run_scenario(scn: dict, *, fast: bool = False, retry: bool = False, eager: bool = False, uv: bool = False) -> dict:
     """Execute one scenario; returns {"events": [...], "final": {...}, "flags": {...}}."""
     ensure_repo_on_path()
     import anyio
@@ -69,53 +69,62 @@ def run_scenario(scn: dict, *, fast: bool = False, eager: bool = False, uv: bool
         state["ids"][id(asyncio.current_task())] = t     # (under the eager factory we run before main registers us)
         lock = state["lock"]
         holding = False
-        with state["scopes"][t]:
-            try:
-                for op in script:
-                    if op == "acq":
-                        rec.emit(ev="start", t=t, op="acq")
-                        try:
-                            await lock.acquire()
-                        except asyncio.CancelledError:
-                            rec.emit(ev="end", t=t, op="acq", res="cancelled", **obs())
-                            raise
-                        except RuntimeError:
-                            rec.emit(ev="end", t=t, op="acq", res="error", **obs())
-                        else:
-                            holding = True
-                            rec.emit(ev="end", t=t, op="acq", res="ok", **obs())
-                    elif op == "nowait":
-                        try:
-                            lock.acquire_nowait()
-                        except anyio.WouldBlock:
-                            rec.emit(ev="nowait", t=t, res="wouldblock", **obs())
-                        except RuntimeError:
-                            rec.emit(ev="nowait", t=t, res="error", **obs())
-                        else:
-                            holding = True
-                            rec.emit(ev="nowait", t=t, res="ok", **obs())
-                    elif op == "rel":
+        ops = iter(script)
+        while True:
+            scope = state["scopes"][t]
+            with scope:
+                try:
+                    for op in ops:
+                        if op == "acq":
+                            rec.emit(ev="start", t=t, op="acq")
+                            try:
+                                await lock.acquire()
+                            except asyncio.CancelledError:
+                                rec.emit(ev="end", t=t, op="acq", res="cancelled", **obs())
+                                raise
+                            except RuntimeError:
+                                rec.emit(ev="end", t=t, op="acq", res="error", **obs())
+                            else:
+                                holding = True
+                                rec.emit(ev="end", t=t, op="acq", res="ok", **obs())
+                        elif op == "nowait":
+                            try:
+                                lock.acquire_nowait()
+                            except anyio.WouldBlock:
+                                rec.emit(ev="nowait", t=t, res="wouldblock", **obs())
+                            except RuntimeError:
+                                rec.emit(ev="nowait", t=t, res="error", **obs())
+                            else:
+                                holding = True
+                                rec.emit(ev="nowait", t=t, res="ok", **obs())
+                        elif op == "rel":
+                            try:
+                                lock.release()
+                            except RuntimeError:
+                                rec.emit(ev="rel", t=t, res="error", **obs())
+                            else:
+                                holding = False
+                                rec.emit(ev="rel", t=t, res="ok", **obs())
+                        elif op == "yield":
+                            await anyio.lowlevel.checkpoint()
+                        elif op == "end":
+                            break
+                        else:  # pragma: no cover
+                            raise ValueError(op)
+                finally:
+                    if holding:
+                        holding = False
                         try:
                             lock.release()
                         except RuntimeError:
                             rec.emit(ev="rel", t=t, res="error", **obs())
                         else:
-                            holding = False
                             rec.emit(ev="rel", t=t, res="ok", **obs())
-                    elif op == "yield":
-                        await anyio.lowlevel.checkpoint()
-                    elif op == "end":
-                        break
-                    else:  # pragma: no cover
-                        raise ValueError(op)
-            finally:
-                if holding:
-                    try:
-                        lock.release()
-                    except RuntimeError:
-                        rec.emit(ev="rel", t=t, res="error", **obs())
-                    else:
-                        rec.emit(ev="rel", t=t, res="ok", **obs())
+            if retry and scope.cancelled_caught:
+                state["scopes"][t] = anyio.CancelScope()
+                rec.emit(ev="cdone", t=t)
+                continue
+            break
 
     async def main() -> None:
         loop = state["loop"] = uvrun.view(asyncio.get_running_loop())
